@@ -31,7 +31,18 @@ for n in sorted(os.listdir(S)):
         rows.append((n, prop, need, verdict))
     if not lr:
         rows.append((n, prop, need, "not run yet"))
-print("| Seed | Prop. | What it needs to manifest | Result |")
-print("|---|---|---|---|")
+import sys
+out = ["| Seed | Prop. | What it needs to manifest | Result |", "|---|---|---|---|"]
 for r in rows:
-    print("| " + " | ".join(x.replace("|", "/") for x in r) + " |")
+    out.append("| " + " | ".join(x.replace("|", "/") for x in r) + " |")
+caught = sum(1 for r in rows if r[3].startswith("caught"))
+out.append("")
+out.append(f"{caught} of {len(rows)} seeded changes are reported by the check of the property they break (quick tier unless stated).")
+if "--write" in sys.argv:
+    p = "/verif/DESIGN.md"
+    s = open(p).read()
+    a, b = s.index("<!-- CATCH-TABLE-BEGIN -->"), s.index("<!-- CATCH-TABLE-END -->")
+    s = s[:a] + "<!-- CATCH-TABLE-BEGIN -->\n" + "\n".join(out) + "\n" + s[b:]
+    open(p, "w").write(s)
+else:
+    print("\n".join(out))
